@@ -8,6 +8,7 @@
   the implementation, and about `Spec/Gaussian.lean`, which the driver evaluates next to them.
 -/
 import EasyMl.Lemmas.Gaussian
+import EasyMl.Props.C08
 import Mathlib.Analysis.SpecialFunctions.Exp
 import Mathlib.Tactic.NormNum
 
@@ -155,6 +156,19 @@ theorem mv_entry (mean : List K) (covariance L : Matrix K) (source : List K) (sa
     rw [get_ofFn _ _ _ _ _ hs hi]
     rfl
 
+/-- Non-vacuity of `mv_entry` / `mv_shape`: over ℝ the 1×1 covariance `[[4]]` has the Cholesky
+    factor `[[2]]` and one sample is drawn from a source of two numbers. -/
+example : cholesky (⟨[4], 1, 1⟩ : Matrix ℝ) = some ⟨[2], 1, 1⟩ ∧
+    ∃ m, mvSpec [(1 : ℝ)] ⟨[4], 1, 1⟩ [1 / 2, 1 / 4] 1 false = some m := by
+  have hc : cholesky (⟨[4], 1, 1⟩ : Matrix ℝ) = some ⟨[2], 1, 1⟩ := by
+    simp [cholesky, forRange, cholRow, cholEntry, cholSum, foldRange, Decomp.get, Decomp.set, fill,
+      EasyMl.Matrix.getIndex, List.range_succ, List.range_zero, C08.sqrt_four]
+  refine ⟨hc, ?_⟩
+  unfold mvSpec
+  simp only [Bool.false_eq_true, if_false, hc]
+  rw [if_neg (by simp [needed])]
+  exact ⟨_, rfl⟩
+
 /-- **Shape**: a present draw is `samples × features` (`features` = the length of the mean). -/
 theorem mv_shape (mean : List K) (covariance : Matrix K) (source : List K) (samples : ℕ)
     (sameNames : Bool) (m : Matrix K) (h : mvSpec mean covariance source samples sameNames = some m) :
@@ -191,6 +205,44 @@ theorem mv_none_iff (mean : List K) (covariance : Matrix K) (source : List K) (s
     | none => simp
     | some L =>
       by_cases hlen : source.length < samples * (2 * ((mean.length + 1) / 2)) <;> simp [hlen]
+
+/-- **A covariance that is not positive definite yields absence** (real, symmetric covariance;
+    any number of samples, any source): the Cholesky factor is absent (`C08`), so the draw is. -/
+theorem mv_none_of_not_posdef (mean : List ℝ) (covariance : Matrix ℝ) (source : List ℝ) (samples : ℕ)
+    (sameNames : Bool)
+    (hsym : (toMat covariance.rows covariance.rows covariance).transpose
+      = toMat covariance.rows covariance.rows covariance)
+    (hnot : ¬ (toMat covariance.rows covariance.rows covariance).PosDef) :
+    drawTensorSamples mean covariance source samples sameNames = (.ok none, source) := by
+  have hc := C08.cholesky_none_of_not_posdef covariance hsym hnot
+  unfold drawTensorSamples
+  cases sameNames <;> simp [hc]
+
+/-- **A positive definite covariance, distinct names, at least one sample and a long enough
+    source give a present draw** of the documented shape, consuming exactly
+    `samples · 2⌈N/2⌉` numbers. -/
+theorem mv_present_of_posdef (mean : List ℝ) (covariance : Matrix ℝ) (source : List ℝ) (samples : ℕ)
+    (hm : mean.length = covariance.rows) (hsq : covariance.rows = covariance.columns)
+    (hPD : (toMat covariance.rows covariance.rows covariance).PosDef) (hk : 0 < samples)
+    (hlen : samples * (2 * ((mean.length + 1) / 2)) ≤ source.length) :
+    ∃ m, drawTensorSamples mean covariance source samples false
+        = (.ok (some m), source.drop (samples * (2 * ((mean.length + 1) / 2)))) ∧
+      m.rows = samples ∧ m.columns = mean.length := by
+  obtain ⟨L, hL⟩ := cholesky_present_aux hsq hPD
+  rw [mv_draw_eq _ _ _ _ _ hm]
+  rw [if_neg (by omega)]
+  have hspec : ∃ m, mvSpec mean covariance source samples false = some m := by
+    unfold mvSpec needed
+    simp only [Bool.false_eq_true, if_false, hL]
+    rw [if_neg (by omega)]
+    exact ⟨_, rfl⟩
+  obtain ⟨m, hm'⟩ := hspec
+  obtain ⟨h1, h2, _⟩ := mv_shape mean covariance source samples false m hm'
+  refine ⟨m, ?_, h1, h2⟩
+  rw [hm']
+  unfold mvConsumed needed
+  simp only [Bool.false_eq_true, if_false, hL]
+  rw [Nat.min_eq_right hlen]
 
 /-- **Matrix and tensor variants agree**: `MultivariateGaussianTensor::draw` with any two
     *distinct* dimension names computes what `MultivariateGaussian::draw` (whose names are the
